@@ -132,6 +132,12 @@ class Report:
         return 1 if self.violations else 0
 
 
+def tlc_error():
+    from harness.tlc import TLCError
+
+    return TLCError
+
+
 def main(checks):
     import argparse
 
@@ -150,7 +156,7 @@ def main(checks):
         rep = Report(a.prop, a.tier, a.seed)
         checks[a.prop].run(rep)
         return rep.finish()
-    except MachineryError as e:
+    except (MachineryError, tlc_error()) as e:
         print(f"MACHINERY-FAILURE property={a.prop}: {e}")
         return 2
     except Exception:  # noqa: BLE001
